@@ -309,6 +309,27 @@ def run_planning(ctx):
                 ctx.violation('pyfftw_call', 'pyfftw;planning=%s;in-place' % effort, '!=numpy.fft', shape=shape)
         except Exception as e:
             ctx.violation('pyfftw_call', 'pyfftw;planning=%s;in-place' % effort, 'raises:' + type(e).__name__, message=str(e)[:200], shape=shape)
+        # in-place transforms of lengths beyond a single codelet (a plan made for two different arrays is not one for in-place use)
+        if it < 4:
+            for bshape in [(40,), (100,), (257,), (100, 100), (48, 36)][it::4] + [(64,)]:
+                ctx.ev('dft-vs-numpy')
+                ctx.case('planning;pyfftw_call;in-place;large;%s' % effort, bshape)
+                try:
+                    zc = rng.normal(size=bshape) + 1j * rng.normal(size=bshape)
+                    refz = np.fft.fftn(zc)
+                    z = zc.copy()
+                    pyfftw_call(z, z, planning_effort=effort)
+                    if not np.allclose(z, refz, rtol=1e-10, atol=1e-10 * np.abs(refz).max()):
+                        ctx.violation('pyfftw_call', 'pyfftw;planning=%s;in-place' % effort, '!=numpy.fft', shape=bshape)
+                    sp_b = odl.uniform_discr([-1.0] * len(bshape), [1.0] * len(bshape), bshape, dtype=complex)
+                    Fb = T.FourierTransform(sp_b, impl='pyfftw')
+                    xb = sp_b.element(zc.copy())
+                    yb = Fb(xb, planning_effort=effort)
+                    back = Fb.inverse(yb, planning_effort=effort)
+                    if not np.allclose(back, zc, rtol=1e-9, atol=1e-9 * np.abs(zc).max()):
+                        ctx.violation('FourierTransformInverse', 'pyfftw;planning=%s;call-kwarg;complex;large' % effort, 'inverse(forward(x))!=x', shape=bshape)
+                except Exception as e:
+                    ctx.violation('pyfftw_call', 'pyfftw;planning=%s;in-place' % effort, 'raises:' + type(e).__name__, message=str(e)[:200], shape=bshape)
         # the operators, option handed through the call and through init_fftw_plan
         shape2 = tuple(int(k) for k in rng.integers(3, 10, size=nd))
         for dt in ('float64', 'complex128'):
